@@ -360,6 +360,7 @@ KINDS: dict[str, tuple[Expr, bool]] = {
     "choiceci2": (("choice", ("range", "a", "c"), ("istr", "ab"), B), False),
     "choiceci3": (("choice", ("istr", "a"), S("ab"), ("istr", "abc")), False),
     "range": (("range", "a", "c"), False),
+    "rangecaret": (("choice", ("seq", ("range", "^", "b"), ("range", "]", "a")), ("range", "-", "0")), False),  # end points that are special inside a regex set
     "any": (("any",), False),
     "digit": (("builtin", "ASCII_DIGIT"), False),
     "hex": (("builtin", "ASCII_HEX_DIGIT"), False),
@@ -433,6 +434,7 @@ KINDS: dict[str, tuple[Expr, bool]] = {
     "soieoi": (("seq", ("soi",), ("eoi",)), False),
     "pushemptypeek": (("seq", ("push", ("opt", A)), ("peek",), B), False),
     "pushemptypop": (("seq", ("push", ("star", A)), B, ("pop",)), False),
+    "pushemptydrop": (("seq", ("push", ("opt", A)), ("choice", ("seq", ("drop",), B), C), ("not", ("drop",))), False),
     "pushlitempty": (("seq", ("pushlit", ""), ("not", ("not", ("peek",))), ("peekall",), ("pop",)), False),
     "push": (("push", ("choice", A, B)), False),
     "pushx": (("push", ("ref", "x")), False),
@@ -532,12 +534,14 @@ TRIVIA: dict[str, list[Rule]] = {
     "both": [WS2, CM],
     "bothn": [WSN, CMN],
     "bothn1": [WSN, ("COMMENT", "", ("str", "#"))],
+    "bothm": [WSM, CM],  # a multi-element WHITESPACE that can match half way, next to a COMMENT
     "cmb": [CMB],
     # a comment that touches the user stack before it can fail: a partial match has to be undone on the stack too
     # comments whose body calls other rules: pest runs trivia bodies atomically, so a normal rule inside yields no pair
     # while a $ rule does
     "cmr": [("COMMENT", "_", ("seq", ("str", "#"), ("choice", ("ref", "n1"), ("ref", "x"))))],
     "bothr": [WS2, ("COMMENT", "", ("seq", ("str", "#"), ("ref", "x")))],
+    "cmrf": [("COMMENT", "_", ("seq", ("str", "#"), ("ref", "x"), ("str", "!")))],  # yields a pair, then can still fail
     "cmstack": [("COMMENT", "_", ("seq", ("str", "#"), ("push", ("str", "!")), ("str", "a"), ("drop",)))],
     "bothstack": [WS2, ("COMMENT", "", ("seq", ("str", "#"), ("push", ("opt", ("str", "!"))), ("str", "a"), ("pop",)))],
     "bothb": [WS2, CMB],
